@@ -60,6 +60,14 @@ CHECKS = {
                   {"quick": dict(shards=16, timeout=900), "thorough": dict(shards=16, timeout=3400, budget=2400)},
                   assumptions=["page tables live in a simulated RAM arena; the MMU is a software walk bound to the ptePtrFn/nextAddrFn/activePDTFn/switchPDTFn seams (present-bit semantics and recursive mapping only; no TLB, caching attributes or accessed/dirty side effects)",
                                "pages, frames and flag sets come from small alphabets chosen for table sharing and field extremes; the recursive slot (P4 index 511) is outside the contract"]),
+    "C05": kernel("mm/vmm", {"harness/vmm/vf_mmu_test.go": K + "mm/vmm/zz_verif_mmu_test.go", "harness/vmm/c04_test.go": K + "mm/vmm/zz_verif_c04_test.go", "harness/vmm/c05_test.go": K + "mm/vmm/zz_verif_c05_test.go"}, "TestVerifC05", "exploration",
+                  {"quick": dict(shards=8, timeout=900), "thorough": dict(shards=16, timeout=3000)},
+                  assumptions=["ELF sections are fed through the visitElfSectionsFn seam (decoding of the multiboot tag is C10); sections never share a page with one another (the property's precondition)",
+                               "kernel offsets whose P4 index is 511 (the recursive window) and the temporary-mapping page are outside the contract"]),
+    "C06": kernel("mm/vmm", {"harness/vmm/vf_mmu_test.go": K + "mm/vmm/zz_verif_mmu_test.go", "harness/vmm/c04_test.go": K + "mm/vmm/zz_verif_c04_test.go", "harness/vmm/c06_test.go": K + "mm/vmm/zz_verif_c06_test.go"}, "TestVerifC06", "model_checking",
+                  {"quick": dict(shards=16, timeout=900), "thorough": dict(shards=16, timeout=3000)},
+                  assumptions=["simulated RAM is a memfd; the virtual data pages the fault handler copies from are host MAP_FIXED aliases of the frame the page tables map them to, re-synchronised after every operation",
+                               "a Go panic carrying a *kernel.Error is 'kernel panic, never resumes'; a normal return of the handler is 'resumes the faulting code'"]),
     "C07": kernel("mm/vmm", {"harness/c07/c07_test.go": K + "mm/vmm/zz_verif_c07_test.go"}, "TestVerifC07", "model_checking",
                   {"quick": dict(shards=4, timeout=300), "thorough": dict(shards=4, timeout=1200)},
                   assumptions=["sizes are drawn from a 16-value alphabet relative to the current cursor (0, 1, page-1, page, page+1, 3 pages, cursor-page, cursor-1, cursor, cursor+1, cursor+page, 2^63, 2^64-4096, 2^64-4095, 2^64-101, 2^64-1)",
